@@ -18,7 +18,7 @@ CHECKS = {
     text="Proved in Coq END TO END for the affine fragment: for every model whose constraints are affine after the pre-processing rewrites, `compile m = Ok L` implies that L has exactly the source's feasible set "
          "(C01_projection_affine, and in the projection form of the property C01_projection_affine_statement_form) - through every stage of compile: domain tightening, flatten/simplify, the logic-constraint test, Exp::linearize, "
          "the main loop with its step bound, row-name de-duplication, variable sorting, coefficient extraction, published domains; premises (record affine_model: well-formed domains with non-NaN bounds, every declared variable used, plain arithmetic sides, constraints affine after flatten/simplify and not taken by the logic-constraint test; decided by the boolean affine_modelb with a soundness lemma and evaluated on every tied model: about 40 % of the generated models lie in the fragment) with a non-vacuity example. "
-         "Proved END TO END as well for the arithmetic fragment with abs, min and max (C01_projection_abs, Proof/CompileAbs.v): + - * / by constants, unary minus, abs, min and max nested to any depth, the dominated-operand pruning of min / max included (Proof/Pruning.v), together with logic assertions over Boolean variables lowered to one affine row (C01_affine_assertion_row: the row holds exactly when the formula has the asserted value), where the compiler creates auxiliary "
+         "Proved END TO END as well for the arithmetic fragment with abs, min and max (C01_projection_abs, Proof/CompileAbs.v): + - * / by constants, unary minus, abs, min and max nested to any depth, the dominated-operand pruning of min / max included (Proof/Pruning.v), together with logic assertions over Boolean variables lowered to one affine row (C01_affine_assertion_row: the row holds exactly when the formula has the asserted value) and comparisons of such formulas with constants (normalised into an assertion, a tautology or a contradiction), where the compiler creates auxiliary "
          "variables and selectors, pushes one-sided, big-M or selector rows back into its queue and relies on the bound analysis - by a state invariant carried through Exp::linearize, the main loop and the read-out (premises: record abs_model incl. the "
          "decidable trace condition compile_trace; decided by abs_modelb on every tied model). "
          "PARTIAL for models with other logic (reified logic values inside arithmetic, assertions that need witnesses): proved for all inputs are every lowering arm's row pattern in both directions "
